@@ -54,10 +54,13 @@ CLAIMS = {
         assumptions=['A-LIB rank-2/3 NumPy array theory (pyvc/mat.py)', 'A-LIB 1-D NumPy array theory (pyvc/npth.py)', 'A-FLAT', 'A-NOOVF', 'A-REAL floats as reals']),
     'C07': dict(level='proof',
         text='PROVED for all arrays: _unique (strictly increasing, exactly the non-negative values present), _spikes_in_clusters (strictly increasing, exactly the spikes of requested clusters), _index_of '
-             '(position of every element in a distinct lookup with entries >= -1, table indices in range). BOUNDED only: _spikes_per_cluster (partition, stability), _flatten_per_cluster, grouped_mean, the '
-             'model queries, for all dtypes incl. unsigned, exhaustive small vectors plus random long ones.',
-        note='Assumed: the 1-D NumPy theory (bincount as presence counts, nonzero, isin, mask selection, scatter/gather with wrap-around); integer arrays are mathematical integers (A-NOOVF).',
-        assumptions=['A-LIB 1-D NumPy array theory (pyvc/npth.py)', 'A-NOOVF']),
+             '(position of every element in a distinct lookup with entries >= -1, table indices in range), _spikes_per_cluster (the partition: one group per cluster id present and no other, keys strictly increasing, '
+             'each group strictly increasing and holding exactly the spike indices - or supplied increasing spike ids - carrying that id, every spike in the group of its id; dict keys pairwise distinct). '
+             'BOUNDED only: _flatten_per_cluster, grouped_mean, the model queries and histograms, for all dtypes incl. unsigned, exhaustive small vectors plus random long ones.',
+        note='Assumed: the 1-D NumPy theory (bincount as presence counts, nonzero, isin, mask selection, scatter/gather with wrap-around, stable argsort for kind=mergesort, diff, slice assignment); integer arrays are '
+             'mathematical integers (A-NOOVF); a dict built by a comprehension with pairwise distinct integer keys (an obligation) and extended with a new key (an obligation) is an association list in insertion order; '
+             'two induction facts machine-checked in Lean by the setup command and instantiated for one array each: L3 (between two positions holding different values two consecutive positions differ) and L4 (floor index).',
+        assumptions=['A-LIB 1-D NumPy array theory (pyvc/npth.py)', 'A-NOOVF', 'A-DICT association-list model of int-keyed dicts', 'L3/L4 Lean-checked lemmas (lean/)']),
     'C08': dict(level='proof',
         text='PROVED for all pairs (spike_templates, spike_clusters) of equal length >= 1 with non-negative ids: TemplateModel.get_merge_map returns one list per id 0..max, each list strictly increasing (no template twice), '
              'containing exactly the templates at least one spike of that id came from (both directions), and nan_idx lists exactly the ids whose list is empty (nested loop invariants over the int-keyed dict of lists). '
